@@ -5,7 +5,7 @@
 Require Extraction.
 Require Import ExtrOcamlBasic.
 From Coq Require Import List NArith ZArith.
-From SDB Require Import Base.Bytes Base.Assoc Params Model.Codec Model.Lock Model.Page Model.Pool Model.SqlRef Model.Catalog Model.Query.
+From SDB Require Import Base.Bytes Base.Assoc Params Model.Codec Model.Lock Model.Page Model.Pool Model.SqlRef Model.Catalog Model.Query Model.Wal.
 
 Extraction Blacklist List String Int.
 
@@ -30,4 +30,6 @@ Extraction "sdbmodel.ml"
   (* M7 query planning (C06) *)
   new_range range_update range_empty cv_cmp cv_is_inf_max cv_is_inf_min cv_bad stmt_hits_bad
   walk candidates chosen plan_for run_plan run_select
+  (* M6 WAL / recovery *)
+  recover redo replay losers log_ok chains_ok strict_ok disk_ok no_loser_apply committed_val page_val get_page scope tracked image_wf fresh_pages_ok recover_outs out_ok
   N.of_nat N.to_nat Z.of_N Z.to_N Z.compare N.compare.
